@@ -93,35 +93,14 @@ func (ex *Exec) callFunction(fr *Frame, st *State, fn *ssa.Function, args []Val,
 	// library specs
 	if sp, ok := specs[name]; ok {
 		ex.trusted[name] = true
-		// call-site clauses may name package-level library functions as "pkg.Func" (cbor.Unmarshal)
-		obj := fn.Object()
-		fname := fn.Name()
-		if obj == nil && fn.Origin() != nil {
-			// instance of a generic library function (slices.BinarySearchFunc[...])
-			obj = fn.Origin().Object()
-			fname = fn.Origin().Name()
-		}
-		if k := strings.Index(fname, "["); k >= 0 {
-			fname = fname[:k]
-		}
-		if ex.specMode == 0 && obj != nil && obj.Pkg() != nil && !explicitEvent[name] {
-			if recv := fn.Signature.Recv(); recv == nil {
-				ex.checkCallSites(fr, st, obj.Pkg().Name()+"."+fname, args, pos)
-			} else {
-				// methods of library types: "netip.Addr.AsSlice" (arg0 is the receiver)
-				RT := recv.Type()
-				if p, ok := RT.(*types.Pointer); ok {
-					RT = p.Elem()
-				}
-				if n, ok := types.Unalias(RT).(*types.Named); ok {
-					ex.checkCallSites(fr, st, obj.Pkg().Name()+"."+n.Obj().Name()+"."+fname, args, pos)
-				}
-			}
+		if !explicitEvent[name] {
+			ex.libraryEvent(fr, st, fn, args, pos)
 		}
 		return sp(ex, fr, st, &callCtx{fn: fn, args: args, argVals: argVals, pos: pos})
 	}
 	isMod := fn.Pkg != nil && isModulePkg(fn.Pkg.Pkg) || (fn.Object() != nil && isModulePkg(fn.Object().Pkg())) || (fn.Parent() != nil)
 	if !isMod || len(fn.Blocks) == 0 {
+		ex.libraryEvent(fr, st, fn, args, pos)
 		return ex.externalCall(fr, st, fn, args, argVals, pos)
 	}
 	ct := ex.C.Funcs[key]
@@ -918,4 +897,36 @@ func readOnlyLibMethod(f *ssa.Function) bool {
 // explicitEvent: library functions whose spec raises its own call-site event under the same name.
 var explicitEvent = map[string]bool{
 	"crypto/rand.Read": true, "crypto/ed25519.Sign": true, "crypto/ed25519.Verify": true, "crypto/ed25519.VerifyWithOptions": true,
+}
+
+// libraryEvent raises the call-site event of a library call: "pkg.Func" (cbor.Unmarshal, slices.SortFunc - also for
+// instances of generic functions) or "pkg.Type.Method" (netip.Addr.AsSlice; arg0 is the receiver).
+func (ex *Exec) libraryEvent(fr *Frame, st *State, fn *ssa.Function, args []Val, pos token.Pos) {
+	if ex.specMode != 0 {
+		return
+	}
+	obj := fn.Object()
+	fname := fn.Name()
+	if obj == nil && fn.Origin() != nil {
+		obj = fn.Origin().Object()
+		fname = fn.Origin().Name()
+	}
+	if k := strings.Index(fname, "["); k >= 0 {
+		fname = fname[:k]
+	}
+	if obj == nil || obj.Pkg() == nil {
+		return
+	}
+	if recv := fn.Signature.Recv(); recv == nil {
+		ex.checkCallSites(fr, st, obj.Pkg().Name()+"."+fname, args, pos)
+		return
+	} else {
+		RT := recv.Type()
+		if p, ok := RT.(*types.Pointer); ok {
+			RT = p.Elem()
+		}
+		if n, ok := types.Unalias(RT).(*types.Named); ok {
+			ex.checkCallSites(fr, st, obj.Pkg().Name()+"."+n.Obj().Name()+"."+fname, args, pos)
+		}
+	}
 }
